@@ -25,7 +25,7 @@ SPECS = {
    text="The retry loop is run against a fake cholesky_ex that fails chosen batch members on chosen attempts (all schedules for <=3 members x <=3 tries, sampled beyond) and against naturally borderline / indefinite / NaN matrices; a per-call reference model predicts warnings, exceptions and the exact perturbed matrix each member's factor must factorize; input immutability monitored bitwise. Sampling beyond the small exhaustive space.",
    note="Trusted: torch.linalg.cholesky_ex as the real kernel underneath the fake, float64 reference factorization, the model's reading of 'member m first succeeds at attempt i_m'."),
  "C12": dict(design="§4", technique="deterministic simulation: seeded stateful query/derivation histories with settings flips and fault injection (callback exceptions, cholesky_ex info, LinAlgError, sys.monitoring line-level crashes), history-vs-fresh-copy reference",
-   text="Seeded histories of builds, derivations, queries, settings flips and injected faults over a small world of operators sharing sub-operators; after every query the same query runs on a freshly rebuilt copy and results are compared through method-independent error functionals with tolerance measured on the fresh copy; transplanted caches of derived operators are multiplied out; post-fault queries are judged against copies that never saw the fault. Violations minimised by ddmin, attributed by cache knockout, confirmed in a fresh interpreter. Sampling, not proof.",
+   text="Seeded histories of builds, derivations, queries, settings flips and injected faults over a small world of operators sharing sub-operators; after every query the same query runs on a freshly rebuilt copy and results are compared through method-independent error functionals with tolerance measured on the fresh copy; every cache entry transplanted onto a derived operator is judged as a query against a cache-less re-derivation (O2); post-fault queries are judged against copies that never saw the fault (O3); two distinct requests may not be answered with the very same object when fresh copies answer them differently (O5). Violations minimised by ddmin, attributed by cache knockout, confirmed in a fresh interpreter. Sampling, not proof.",
    note="Trusted: the library itself on an empty history is the reference (a class wrong with and without history is C01-C06, not C12); tolerance rule err(hist) <= max(floor, 10*err(fresh)); n <= 12, history <= 14 steps."),
  "C13": dict(design="§5", technique="deterministic simulation: storage-conservation invariant (version counters + whole-storage bytes + operator dense value) checked after every simulated step of layout-stressed operation histories with fault injection",
    text="Every step of every simulated world (operator queries, derivations, direct utility calls; tensors as views / stride-0 expansions / guard-zoned slices / aliases; faults forcing retry and early-exit paths) is followed by a bitwise check of every caller-owned storage, version counter and pre-existing operator's dense value. Sampling, not proof.",
